@@ -504,17 +504,39 @@ func WorkerMain(propID, tier string, seed uint64, shard, of int, dir string, ski
 	var curIdx int64 = -1
 	var wmu sync.Mutex
 	go func() {
+		// A case that is blocked (a deadlock) uses no CPU, so the CPU budget never
+		// runs out: a case during which the process has used no CPU time at all
+		// for 45 s of wall-clock time is declared blocked. (Machine load cannot
+		// cause that: a runnable process still gets some CPU; the code under test
+		// and the workloads do not sleep.)
+		var markCPU time.Duration
+		markWall := time.Now()
+		markIdx := int64(-2)
 		for {
 			time.Sleep(50 * time.Millisecond)
 			wmu.Lock()
 			in, st, idx := r.inCase, r.caseStart, curIdx
 			wmu.Unlock()
 			if !in {
+				markIdx = -2
 				continue
 			}
 			used := cpuNow() - st
+			// (the watchdog's own sampling costs a little CPU: "no CPU" is
+			// less than one second of it within 45 s)
+			if idx != markIdx {
+				markIdx, markCPU, markWall = idx, used, time.Now()
+			}
+			blocked := false
+			if w := time.Since(markWall); w > 45*time.Second {
+				if used-markCPU < time.Second {
+					blocked = true
+				} else {
+					markCPU, markWall = used, time.Now()
+				}
+			}
 			var ms runtime.MemStats
-			over := used > time.Duration(budget*float64(time.Second))
+			over := blocked || used > time.Duration(budget*float64(time.Second))
 			mem := false
 			if !over {
 				runtime.ReadMemStats(&ms)
@@ -523,7 +545,7 @@ func WorkerMain(propID, tier string, seed uint64, shard, of int, dir string, ski
 			if over || mem {
 				f, _ := os.Create(r.curPath + ".dump")
 				if f != nil {
-					fmt.Fprintf(f, "case %d used %.2fs CPU (budget %.2fs) heap=%d\n", idx, used.Seconds(), budget, ms.HeapAlloc)
+					fmt.Fprintf(f, "case %d used %.2fs CPU (budget %.2fs) heap=%d blocked=%v\n", idx, used.Seconds(), budget, ms.HeapAlloc, blocked)
 					pprof.Lookup("goroutine").WriteTo(f, 2)
 					f.Close()
 				}
